@@ -30,6 +30,12 @@ add("C09", "model_checking",
     "Trusted: the hook forces exactly the sequencer-visible latches (verif_force_control); the defined-opcode sets come from REF-ISA.",
     "DESIGN.md 3/C09")
 
+add("C05", "model_checking",
+    "per-edge invariant monitoring of exhaustively generated runs on the real Machine + explicit-state BFS (depth 3) over stimuli from every class of halted state reached",
+    "Every clock edge of every generated run (LDSP to all 256 values x walks x 5 stack sizes, recursion to the limit, jumps to all 256 targets x all 256 program-size limits, all first/second opcode bytes, all two-instruction sequences of a 23-instruction alphabet) is checked by an independent edge-level predictor of the Running/Stopped/ErrorStopped flip; halted states are expanded under 10 further stimuli to depth 3 and must be absorbing; continue from a STOP must resume with the next instruction (checked against REF-ISA).",
+    "Trusted: REF-SUP bands (frozen) and predicates; the monitor reads pending-write/wait/last-bus-read latches via the verif-hooks accessors; at the conflict edge (rule broken and STOP loaded together) either halt kind is accepted.",
+    "DESIGN.md 3/C05")
+
 NOT_YET = {}
 
 def main():
